@@ -19,7 +19,7 @@ Bodies == {<<>>, <<"mov.w #5, r6">>, <<"bogus line">>, <<".org 0xfffffff0", ".db
 AsmArgs == {"", "0", "0x100", "0xffffffff", "-1", "xyz", "0x10-0x20"}
 AsmCases == {[cmd |-> "asm", arg |-> a, body |-> b, closed |-> c] : a \in AsmArgs, b \in Bodies, c \in BOOLEAN}
 Args == {"", "0", "0x10", "10h", "-1", "0xffffffff", "0x10-0x20", "0x20-0x10", "0x10-", "0xfffffff0-0xffffffff", "0xffffffff-", "0xfffffffe", "-0x10", "xyz", "0x10 1 2 3",
-         "0xfffe 0x1234", "4294967296", "r4=5", "pc=0x1000", "r8=1", "r9=1", "r15=1", "r16=1", "r31=1", "r32=1", "r255=1", "x9=1", "a=1", "sp=1", "zz=1", "=1", "r=", "r4=", "999999999999999999999", "0x", "1 2 3 4 5 6 7 8 9 10 11 12 13 14 15 16 17 18 19 20"}
+         "0xfffe 0x1234", "4294967296", "r4=5", "pc=0x1000", "r8=1", "r9=1", "r15=1", "r16=1", "r31=1", "r32=1", "r255=1", "x9=1", "x31=1", "x32=1", "x33=1", "$31=1", "$32=1", "a7=1", "a8=1", "d8=1", "f32=1", "a=1", "sp=1", "zz=1", "=1", "r=", "r4=", "999999999999999999999", "0x", "1 2 3 4 5 6 7 8 9 10 11 12 13 14 15 16 17 18 19 20"}
 \* command lines: up to MaxOpts options, each with its argument, without it (when it is the last word) or with a malformed
 \* one, followed by a file that exists, one that does not, or nothing
 Opt(ws) == ws
